@@ -9,10 +9,12 @@ import (
 	"net"
 	"net/netip"
 	"os"
+	"runtime"
 	"sort"
 	"strconv"
 	"strings"
 	"sync"
+	"sync/atomic"
 	"time"
 
 	"github.com/postalsys/muti-metroo/internal/agent"
@@ -21,6 +23,7 @@ import (
 	"github.com/postalsys/muti-metroo/internal/exit"
 	"github.com/postalsys/muti-metroo/internal/identity"
 	"github.com/postalsys/muti-metroo/internal/protocol"
+	"github.com/postalsys/muti-metroo/internal/verifhook"
 )
 
 // Engine c19: a real Agent built by agent.New; dynamic routes through Agent.ManageRoute; opens
@@ -342,11 +345,170 @@ func c19Run(line string) string {
 	case f[0] == "stale":
 		c19W.a.VerifC19Stale()
 		return "ok"
+	case f[0] == "sched" && len(f) == 3:
+		return c19Sched(f[1], f[2])
+	case f[0] == "race" && len(f) == 4:
+		// race <net> <k> <n>: k goroutines, each n times ManageRoute add then remove of the SAME network,
+		// concurrently; every goroutine ends with a remove, so afterwards the route must be gone — from
+		// the manager AND from the allow list
+		k, _ := strconv.Atoi(f[2])
+		n, _ := strconv.Atoi(f[3])
+		cidr := c19CIDR(f[1])
+		var wg sync.WaitGroup
+		start := make(chan struct{})
+		for g := 0; g < k; g++ {
+			wg.Add(1)
+			go func(g int) {
+				defer wg.Done()
+				<-start
+				for i := 0; i < n; i++ {
+					c19W.a.ManageRoute("add", cidr, uint16(g+1))
+					if (i+g)%3 == 0 {
+						runtime.Gosched()
+					}
+					c19W.a.ManageRoute("remove", cidr, 0)
+				}
+			}(g)
+		}
+		close(start)
+		done := make(chan struct{})
+		go func() { wg.Wait(); close(done) }()
+		select {
+		case <-done:
+		case <-time.After(20 * time.Second):
+			return "timeout race"
+		}
+		return "ok dyn " + c19DynList()
 	}
 	return "bad-op"
 }
 
 var _ = exit.DefaultHandlerConfig
+
+// c19AtRest waits (at most budget) until every goroutine running internal/agent code is parked.
+var c19Recs = make([]runtime.StackRecord, 256)
+
+func c19AtRest(budget time.Duration) bool {
+	busy := func() bool {
+		n, ok := runtime.GoroutineProfile(c19Recs)
+		for !ok {
+			c19Recs = make([]runtime.StackRecord, 2*n+64)
+			n, ok = runtime.GoroutineProfile(c19Recs)
+		}
+		for _, rec := range c19Recs[:n] {
+			pcs := rec.Stack()
+			if len(pcs) == 0 {
+				continue
+			}
+			frames := runtime.CallersFrames(pcs)
+			top, hit := "", false
+			for {
+				fr, more := frames.Next()
+				if top == "" {
+					top = fr.Function
+				}
+				if strings.Contains(fr.Function, "internal/agent.(*Agent).ManageRoute") {
+					hit = true
+				}
+				if !more {
+					break
+				}
+			}
+			if hit && top != "runtime.gopark" {
+				return true
+			}
+		}
+		return false
+	}
+	stable := 0
+	for dl := time.Now().Add(budget); time.Now().Before(dl); {
+		if !busy() {
+			stable++
+			if stable >= 3 {
+				return true
+			}
+		} else {
+			stable = 0
+		}
+		time.Sleep(200 * time.Microsecond)
+	}
+	return false
+}
+
+// c19Sched: sched <add|remove> <net> — a deterministic schedule of two concurrent ManageRoute calls on
+// the same network. T1 (add, resp. remove) is held at the scheduling point between its routing-manager
+// step and its allow-list step; T2 (remove, resp. add) is started and runs until it has finished
+// or is parked (on the lock that serializes ManageRoute); then T1 is released. Serialized calls give
+// the result of "T1 then T2". Without the scheduling points in the source the two calls simply run
+// one after the other.
+func c19Sched(first, netTok string) string {
+	cidr := c19CIDR(netTok)
+	second, point := "remove", "agent.ManageRoute.add.between"
+	if first == "remove" {
+		second, point = "add", "agent.ManageRoute.remove.between"
+	}
+	hold := make(chan struct{})
+	reached := make(chan struct{}, 1)
+	var armed int32 = 1
+	verifhook.Point = func(name string) {
+		if name == point && atomic.CompareAndSwapInt32(&armed, 1, 0) {
+			reached <- struct{}{}
+			<-hold
+		}
+	}
+	defer func() { verifhook.Point = nil }()
+	res := func(err error) string {
+		switch {
+		case err == nil:
+			return "ok"
+		case strings.Contains(err.Error(), "config route"):
+			return "err-config-route"
+		case strings.HasSuffix(err.Error(), "not found"):
+			return "err-not-found"
+		}
+		return "err-other"
+	}
+	var r1, r2 string
+	done1, done2 := make(chan struct{}), make(chan struct{})
+	go func() {
+		_, err := c19W.a.ManageRoute(first, cidr, 5)
+		r1 = res(err)
+		close(done1)
+	}()
+	select {
+	case <-reached:
+	case <-done1: // no scheduling point (or T1 failed before it): sequential
+	case <-time.After(3 * time.Second):
+		close(hold)
+		return "timeout sched-t1"
+	}
+	go func() {
+		_, err := c19W.a.ManageRoute(second, cidr, 7)
+		r2 = res(err)
+		close(done2)
+	}()
+	// T2 finishes (nothing serializes the calls) or parks on the lock
+	fin := false
+	for dl := time.Now().Add(3 * time.Second); time.Now().Before(dl) && !fin; {
+		select {
+		case <-done2:
+			fin = true
+		default:
+			if c19AtRest(50 * time.Millisecond) {
+				fin = true
+			}
+		}
+	}
+	close(hold)
+	for _, d := range []chan struct{}{done1, done2} {
+		select {
+		case <-d:
+		case <-time.After(3 * time.Second):
+			return "timeout sched"
+		}
+	}
+	return "t1 " + r1 + " t2 " + r2 + " dyn " + c19DynList()
+}
 
 // ---- generator
 
@@ -453,6 +615,27 @@ func c19Gen(w *bufio.Writer, seed int64, tier string) {
 		if r.chance(50) { // life goes on: re-add and remove normally
 			fmt.Fprintf(w, "add %s 7\nopen i:7f010203\nremove %s\nstate\nopen i:7f010203\n", x, x)
 		}
+	}
+	// concurrency cases: two ManageRoute calls on one network in a fixed schedule, and k goroutines
+	// adding/removing the same network; afterwards the allow list must again be config + dynamic routes
+	concCase := func(i int) {
+		x := r.pickS("7f010000/16", "7f010200/24", mapped(127, 1, 0, 0)+"/112")
+		e, cfgn := "0", "-"
+		if i%2 == 1 {
+			e, cfgn = "1", "7f030000/16"
+		}
+		fmt.Fprintf(w, "reset %s %s -\n", e, cfgn)
+		switch i % 3 {
+		case 0:
+			fmt.Fprintf(w, "sched add %s\nstate\nopen i:7f010203\n", x)
+		case 1:
+			fmt.Fprintf(w, "add %s 1\nsched remove %s\nstate\nopen i:7f010203\nremove %s\nstate\nopen i:7f010203\n", x, x, x)
+		default:
+			fmt.Fprintf(w, "add 7f020000/15 1\nsched add %s\nstate\nrace %s %d %d\nstate\nopen i:7f010203\nopen i:7f020304\n", x, x, 2+r.intn(3), 20+r.intn(40))
+		}
+	}
+	for i := 0; i < 6; i++ {
+		concCase(i)
 	}
 	for c := 0; c < cases; c++ {
 		if r.chance(30) {
